@@ -439,6 +439,30 @@ func ruleXZReaderChecks(c *Ctx, r *Report, prefix string) {
 			// presence: the flag bit is handed to the parser, or the parse happens under `flags&mask != 0`
 			// with the field preset to -1 (absent)
 			present := func(call *ssa.Call, mask int64, f *types.Var) bool {
+				if len(call.Call.Args) == 3 && len(rsb.Params) == 3 {
+					// (r, flags, mask): the parser itself tests flags&mask
+					if k, isK := constInt(call.Call.Args[2]); !isK || k != mask || !flags(call.Call.Args[1]) {
+						return false
+					}
+					for _, b := range rsb.Blocks {
+						iff, isIf := b.Instrs[len(b.Instrs)-1].(*ssa.If)
+						if !isIf {
+							continue
+						}
+						cmp, isC := iff.Cond.(*ssa.BinOp)
+						if !isC || (cmp.Op != token.EQL && cmp.Op != token.NEQ) {
+							continue
+						}
+						and, isA := cmp.X.(*ssa.BinOp)
+						if z, isZ := constInt(cmp.Y); !isA || and.Op != token.AND || !isZ || z != 0 {
+							continue
+						}
+						if (and.X == ssa.Value(rsb.Params[1]) && and.Y == ssa.Value(rsb.Params[2])) || (and.Y == ssa.Value(rsb.Params[1]) && and.X == ssa.Value(rsb.Params[2])) {
+							return true
+						}
+					}
+					return false
+				}
 				if len(call.Call.Args) >= 2 {
 					return bit(mask)(call.Call.Args[1])
 				}
